@@ -1,0 +1,324 @@
+//go:build verif
+// +build verif
+
+package jet
+
+import (
+	"encoding/hex"
+	"fmt"
+	"math"
+	"sort"
+	"strings"
+)
+
+// VerifDumpTemplate renders a parsed template (name, extends/imports, processed block table
+// and root list, every node with its Line and - where it differs from the template's name -
+// its TemplatePath) as an s-expression for the verification harness.
+func VerifDumpTemplate(t *Template) string {
+	var b strings.Builder
+	d := &verifDumper{b: &b, path: t.Name}
+	b.WriteString("(template #" + hex.EncodeToString([]byte(t.Name)) + " ")
+	if t.extends != nil {
+		b.WriteString("#" + hex.EncodeToString([]byte(t.extends.Name)))
+	} else {
+		b.WriteString("nil")
+	}
+	b.WriteString(" (")
+	for i, im := range t.imports {
+		if i > 0 {
+			b.WriteString(" ")
+		}
+		b.WriteString("#" + hex.EncodeToString([]byte(im.Name)))
+	}
+	b.WriteString(") (")
+	names := make([]string, 0, len(t.processedBlocks))
+	for k := range t.processedBlocks {
+		names = append(names, k)
+	}
+	sort.Strings(names)
+	for i, k := range names {
+		if i > 0 {
+			b.WriteString(" ")
+		}
+		b.WriteString("(#" + hex.EncodeToString([]byte(k)) + " ")
+		d.node(t.processedBlocks[k])
+		b.WriteString(")")
+	}
+	b.WriteString(") ")
+	if t.Root == nil {
+		b.WriteString("nil")
+	} else {
+		d.node(t.Root)
+	}
+	b.WriteString(")")
+	return b.String()
+}
+
+// VerifTemplateExtends / VerifTemplateImports expose the parse-time links.
+func VerifTemplateExtends(t *Template) *Template   { return t.extends }
+func VerifTemplateImports(t *Template) []*Template { return t.imports }
+
+type verifDumper struct {
+	b    *strings.Builder
+	path string
+}
+
+func (d *verifDumper) hexs(s string) { d.b.WriteString("#" + hex.EncodeToString([]byte(s))) }
+
+func (d *verifDumper) open(kind string, nb *NodeBase) (closeWrap bool) {
+	if nb.TemplatePath != d.path {
+		d.b.WriteString("(@ ")
+		d.hexs(nb.TemplatePath)
+		d.b.WriteString(" ")
+		closeWrap = true
+	}
+	fmt.Fprintf(d.b, "(%s %d", kind, nb.Line)
+	return
+}
+
+func (d *verifDumper) close(wrap bool) {
+	d.b.WriteString(")")
+	if wrap {
+		d.b.WriteString(")")
+	}
+}
+
+func (d *verifDumper) opt(n Node) {
+	d.b.WriteString(" ")
+	if n == nil || isNilNode(n) {
+		d.b.WriteString("nil")
+		return
+	}
+	d.node(n)
+}
+
+func isNilNode(n Node) bool {
+	switch x := n.(type) {
+	case *ListNode:
+		return x == nil
+	case *SetNode:
+		return x == nil
+	case *PipeNode:
+		return x == nil
+	case *catchNode:
+		return x == nil
+	case *IdentifierNode:
+		return x == nil
+	case *BlockParameterList:
+		return x == nil
+	}
+	return false
+}
+
+func (d *verifDumper) exprs(xs []Expression) {
+	d.b.WriteString(" (")
+	for i, x := range xs {
+		if i > 0 {
+			d.b.WriteString(" ")
+		}
+		d.node(x)
+	}
+	d.b.WriteString(")")
+}
+
+func (d *verifDumper) params(p *BlockParameterList) {
+	if p == nil {
+		d.b.WriteString(" nil")
+		return
+	}
+	d.b.WriteString(" (")
+	for i, bp := range p.List {
+		if i > 0 {
+			d.b.WriteString(" ")
+		}
+		d.b.WriteString("(")
+		d.hexs(bp.Identifier)
+		d.opt(bp.Expression)
+		d.b.WriteString(")")
+	}
+	d.b.WriteString(")")
+}
+
+func (d *verifDumper) binary(kind string, n *binaryExprNode) {
+	w := d.open(kind, &n.NodeBase)
+	fmt.Fprintf(d.b, " %d", int(n.Operator.typ))
+	d.opt(n.Left)
+	d.opt(n.Right)
+	d.close(w)
+}
+
+func (d *verifDumper) callArgs(a *CallArgs) {
+	if a.Exprs == nil {
+		d.b.WriteString(" nil")
+	} else {
+		d.exprs(a.Exprs)
+	}
+	fmt.Fprintf(d.b, " %v", a.HasPipeSlot)
+}
+
+func (d *verifDumper) branch(kind string, n *BranchNode) {
+	w := d.open(kind, &n.NodeBase)
+	d.opt(n.Set)
+	d.opt(n.Expression)
+	d.opt(n.List)
+	d.opt(n.ElseList)
+	d.close(w)
+}
+
+func (d *verifDumper) node(n Node) {
+	switch n := n.(type) {
+	case *ListNode:
+		w := d.open("list", &n.NodeBase)
+		for _, c := range n.Nodes {
+			d.b.WriteString(" ")
+			d.node(c)
+		}
+		d.close(w)
+	case *TextNode:
+		w := d.open("text", &n.NodeBase)
+		d.b.WriteString(" ")
+		d.hexs(string(n.Text))
+		d.close(w)
+	case *ActionNode:
+		w := d.open("action", &n.NodeBase)
+		d.opt(n.Set)
+		d.opt(n.Pipe)
+		d.close(w)
+	case *SetNode:
+		w := d.open("set", &n.NodeBase)
+		fmt.Fprintf(d.b, " %v %v", n.Let, n.IndexExprGetLookup)
+		d.exprs(n.Left)
+		d.exprs(n.Right)
+		d.close(w)
+	case *PipeNode:
+		w := d.open("pipe", &n.NodeBase)
+		for _, c := range n.Cmds {
+			d.b.WriteString(" ")
+			d.node(c)
+		}
+		d.close(w)
+	case *CommandNode:
+		w := d.open("cmd", &n.NodeBase)
+		fmt.Fprintf(d.b, " %d", n.CallExprNode.Line)
+		d.opt(n.BaseExpr)
+		d.callArgs(&n.CallArgs)
+		d.close(w)
+	case *IfNode:
+		d.branch("if", &n.BranchNode)
+	case *RangeNode:
+		d.branch("range", &n.BranchNode)
+	case *BlockNode:
+		w := d.open("block", &n.NodeBase)
+		d.b.WriteString(" ")
+		d.hexs(n.Name)
+		d.params(n.Parameters)
+		d.opt(n.Expression)
+		d.opt(n.List)
+		d.opt(n.Content)
+		d.close(w)
+	case *YieldNode:
+		w := d.open("yield", &n.NodeBase)
+		d.b.WriteString(" ")
+		d.hexs(n.Name)
+		d.params(n.Parameters)
+		d.opt(n.Expression)
+		d.opt(n.Content)
+		fmt.Fprintf(d.b, " %v", n.IsContent)
+		d.close(w)
+	case *IncludeNode:
+		w := d.open("include", &n.NodeBase)
+		d.opt(n.Name)
+		d.opt(n.Context)
+		d.close(w)
+	case *TryNode:
+		w := d.open("try", &n.NodeBase)
+		d.opt(n.List)
+		d.opt(n.Catch)
+		d.close(w)
+	case *catchNode:
+		w := d.open("catch", &n.NodeBase)
+		d.opt(n.Err)
+		d.opt(n.List)
+		d.close(w)
+	case *ReturnNode:
+		w := d.open("return", &n.NodeBase)
+		d.opt(n.Value)
+		d.close(w)
+	case *IdentifierNode:
+		w := d.open("ident", &n.NodeBase)
+		d.b.WriteString(" ")
+		d.hexs(n.Ident)
+		d.close(w)
+	case *FieldNode:
+		w := d.open("field", &n.NodeBase)
+		for _, f := range n.Ident {
+			d.b.WriteString(" ")
+			d.hexs(f)
+		}
+		d.close(w)
+	case *ChainNode:
+		w := d.open("chain", &n.NodeBase)
+		d.opt(n.Node)
+		for _, f := range n.Field {
+			d.b.WriteString(" ")
+			d.hexs(f)
+		}
+		d.close(w)
+	case *UnderscoreNode:
+		d.close(d.open("underscore", &n.NodeBase))
+	case *NilNode:
+		d.close(d.open("nillit", &n.NodeBase))
+	case *BoolNode:
+		w := d.open("bool", &n.NodeBase)
+		fmt.Fprintf(d.b, " %v", n.True)
+		d.close(w)
+	case *StringNode:
+		w := d.open("string", &n.NodeBase)
+		d.b.WriteString(" ")
+		d.hexs(n.Text)
+		d.close(w)
+	case *NumberNode:
+		w := d.open("number", &n.NodeBase)
+		fmt.Fprintf(d.b, " %v %v %v %v %d %d %d ", n.IsInt, n.IsUint, n.IsFloat, n.IsComplex, n.Int64, n.Uint64, math.Float64bits(n.Float64))
+		d.hexs(n.Text)
+		d.close(w)
+	case *AdditiveExprNode:
+		d.binary("add", &n.binaryExprNode)
+	case *MultiplicativeExprNode:
+		d.binary("mul", &n.binaryExprNode)
+	case *ComparativeExprNode:
+		d.binary("cmp", &n.binaryExprNode)
+	case *NumericComparativeExprNode:
+		d.binary("numcmp", &n.binaryExprNode)
+	case *LogicalExprNode:
+		d.binary("logic", &n.binaryExprNode)
+	case *NotExprNode:
+		w := d.open("not", &n.NodeBase)
+		d.opt(n.Expr)
+		d.close(w)
+	case *TernaryExprNode:
+		w := d.open("ternary", &n.NodeBase)
+		d.opt(n.Boolean)
+		d.opt(n.Left)
+		d.opt(n.Right)
+		d.close(w)
+	case *CallExprNode:
+		w := d.open("call", &n.NodeBase)
+		d.opt(n.BaseExpr)
+		d.callArgs(&n.CallArgs)
+		d.close(w)
+	case *IndexExprNode:
+		w := d.open("index", &n.NodeBase)
+		d.opt(n.Base)
+		d.opt(n.Index)
+		d.close(w)
+	case *SliceExprNode:
+		w := d.open("slice", &n.NodeBase)
+		d.opt(n.Base)
+		d.opt(n.Index)
+		d.opt(n.EndIndex)
+		d.close(w)
+	default:
+		fmt.Fprintf(d.b, "(unknown-node %T)", n)
+	}
+}
